@@ -225,9 +225,11 @@ func (c *c16) names() []string {
 
 func (c *c16) opGet(sm *setModel, name string, exec bool) {
 	t0, c0 := len(c.loader.Trace), len(c.ctrace)
+	hardBefore := c.loader.Fired[FaultOpenError] + c.loader.Fired[FaultReadError] + c.loader.Fired[FaultGarbage]
 	var t *jet.Template
 	var err error
 	pc := sim.Guard(func() { t, err = sm.set.GetTemplate(name) })
+	hardFired := c.loader.Fired[FaultOpenError] + c.loader.Fired[FaultReadError] + c.loader.Fired[FaultGarbage] - hardBefore
 	calls := append([]Call(nil), c.loader.Trace[t0:]...)
 	ccalls := append([]Call(nil), c.ctrace[c0:]...)
 	op := fmt.Sprintf("GetTemplate(%q) on set#%d.%d (%s, exts %q)", name, indexOf(c.sets, sm), sm.gen, c.mode(sm), c.exts)
@@ -300,6 +302,11 @@ func (c *c16) opGet(sm *setModel, name string, exec bool) {
 	if err == nil && t == nil {
 		c.env.Violate("no-panic", c.mode(sm)+":nil-nil", "%s returned (nil, nil)", op)
 		return
+	}
+	// a load that hit an Open error, a Read error or unparsable bytes is a failed load: GetTemplate
+	// must report it (everything GetTemplate loads is needed to build the template)
+	if err == nil && hardFired > 0 {
+		c.env.Violate("failed-load-reported", c.mode(sm)+":fault-swallowed", "%s succeeded although %d injected load failure(s) (open error / read error / unparsable content) hit the files it loaded: %v\nhistory: %s", op, hardFired, calls, strings.Join(c.hist, " "))
 	}
 	if err != nil {
 		sm.failed[name] = true
